@@ -53,22 +53,22 @@ def check_earley(ctx, res):
             res.violation('rejection is not reported at the first offending position with the %s continuation set' % ('exact' if lexer != 'basic' else 'covering'), where)
 
 
-F18 = {'grammar': 'start: start "a"\n%ignore " "\n', 'text': '  ', 'lexer': 'dynamic'}
-
-def replay_known(res):
+def replay_known(ctx, res):
     from lark import Lark
     from lark.exceptions import UnexpectedCharacters
-    p = Lark(F18['grammar'], parser='earley', lexer='dynamic')
-    try:
-        p.parse(F18['text'])
-    except UnexpectedCharacters as e:
-        if e.pos_in_stream != 0:
-            res.known_hits.append(('F18', 'dynamic Earley: when no terminal is expected (empty language from here) an %%ignore match still keeps the scan alive through an empty '
-                                          'delayed_matches entry, so the error is reported after the ignored text: %r on %r reports offset %d, first dead offset is 0' % (F18['grammar'], F18['text'], e.pos_in_stream)))
+    for f in ctx['known']:
+        if f['id'] == 'F18' and f['status'] == 'open':
+            w = f['witness']
+            p = Lark(w['grammar'], parser='earley', lexer=w['lexer'])
+            try:
+                p.parse(w['text'])
+            except UnexpectedCharacters as e:
+                if e.pos_in_stream != 0:
+                    res.known_hits.append(('F18', '%s: %r on %r reports offset %d, first dead offset is 0' % (f['what'], w['grammar'], w['text'], e.pos_in_stream)))
 
 
 def run(ctx, res):
-    replay_known(res)
+    replay_known(ctx, res)
     check_earley(ctx, res)
     try:
         import lalrlib
